@@ -115,6 +115,13 @@ def generate(rng, tier):
         if rng.random() < 0.6:
             burst.insert(0, {"op": "update_noise", "m": rng.choice([10, 1000]), "pol": rng.randrange(pols)})
         ops[at:at] = burst
+    if rng.random() < (0.04 if tier == "quick" else 0.1):
+        # SCALE: one or several very long requests (chunked or buffered paths that only engage beyond some length)
+        at = rng.randrange(len(ops) + 1)
+        while at > 0 and ops[at - 1]["op"] == "fault_get":
+            at += 1
+        n_long = 2 ** rng.choice([16, 17, 18, 19, 20]) + rng.choice([0, 0, 1, 37, 1000])
+        ops[at:at] = [{"op": "get", "n": n_long} for _ in range(rng.choice([1, 1, 2, 3]))] + [{"op": "get", "n": rng.choice([1, 16, 1000])}]
     cfg = {"kind": kind, "fs": fs, "fch1": fch1, "ascending": ascending, "t_start": t_start,
            "seed": gen_seed(rng), "pols": pols, "dyadic": dyadic, "sources": srcs}
     if kind == "stream" and rng.random() < 0.3:
